@@ -295,7 +295,7 @@ Qed.
 
 Definition mb_ok (m : amode) (base : N) (zero : bool) : bool :=
   match m with
-  | MDec => (base =? 10) && negb zero
+  | MDec => base =? 10
   | MBin => base =? 2
   | MOct => base =? 8
   | MHex => base =? 16
@@ -332,20 +332,20 @@ Proof.
 Qed.
 
 Lemma base_cases m base zero : mb_ok m base zero = true ->
-  (m = MDec /\ base = 10 /\ zero = false) \/ (m = MBin /\ base = 2) \/ (m = MOct /\ base = 8) \/ (m = MHex /\ base = 16).
+  (m = MDec /\ base = 10) \/ (m = MBin /\ base = 2) \/ (m = MOct /\ base = 8) \/ (m = MHex /\ base = 16).
 Proof.
   intro Hmb. destruct m; cbn [mb_ok] in Hmb.
-  - apply andb_true_iff in Hmb as [H1 H2]. apply N.eqb_eq in H1. apply negb_true_iff in H2. tauto.
+  - apply N.eqb_eq in Hmb. tauto.
   - apply N.eqb_eq in Hmb. tauto.
   - apply N.eqb_eq in Hmb. tauto.
   - apply N.eqb_eq in Hmb. tauto.
 Qed.
 
 Lemma base_le16 m base zero : mb_ok m base zero = true -> base <= 16.
-Proof. intro H. destruct (base_cases _ _ _ H) as [(_ & -> & _)|[(_ & ->)|[(_ & ->)|(_ & ->)]]]; lia. Qed.
+Proof. intro H. destruct (base_cases _ _ _ H) as [(_ & ->)|[(_ & ->)|[(_ & ->)|(_ & ->)]]]; lia. Qed.
 
 Lemma base_ge2 m base zero : mb_ok m base zero = true -> 2 <= base.
-Proof. intro H. destruct (base_cases _ _ _ H) as [(_ & -> & _)|[(_ & ->)|[(_ & ->)|(_ & ->)]]]; lia. Qed.
+Proof. intro H. destruct (base_cases _ _ _ H) as [(_ & ->)|[(_ & ->)|[(_ & ->)|(_ & ->)]]]; lia. Qed.
 
 Lemma D_plain m base zero D : mb_ok m base zero = true ->
   Forall (fun c => is_digit_of base c = true) D -> Forall plain_char D.
@@ -360,7 +360,7 @@ Lemma unsigned_token_ok m base zero D : mb_ok m base zero = true ->
 Proof.
   intros Hmb HD HDne.
   unfold int_token_ok. destruct D as [|c r] eqn:ED; [congruence|]. cbn [andb]. rewrite <- ED in *.
-  destruct (base_cases _ _ _ Hmb) as [(-> & Hb & _)|[(-> & Hb)|[(-> & Hb)|(-> & Hb)]]]; subst base.
+  destruct (base_cases _ _ _ Hmb) as [(-> & Hb)|[(-> & Hb)|[(-> & Hb)|(-> & Hb)]]]; subst base.
   - apply orb_true_iff. left. apply digits_ok_all; [exact HDne|].
     eapply Forall_impl; [|exact HD]. intros x Hx. apply digit_of_10_is_dec. exact Hx.
   - apply digits_ok_all; assumption.
@@ -377,7 +377,7 @@ Lemma unsigned_parse m base zero bits mag D : mb_ok m base zero = true ->
 Proof.
   intros Hmb Hmag HD HDne HDval HDdec.
   pose proof (D_plain _ _ _ _ Hmb HD) as Hplain.
-  destruct (base_cases _ _ _ Hmb) as [(Em & Hb & _)|Hother].
+  destruct (base_cases _ _ _ Hmb) as [(Em & Hb)|Hother].
   - (* decimal: base 0 prefix detection *)
     subst base. rewrite Em. cbn [mode_base]. specialize (HDdec Em).
     destruct (N.eq_dec mag 0) as [E0|N0].
@@ -415,20 +415,76 @@ Proof. intro H. unfold is_digit_of. change (digit_val ch_0) with (Some 0). apply
 
 (* zero padded digits of [mag] *)
 Lemma padded_digits m base zero prec mag :
-  mb_ok m base zero = true -> (zero = false -> prec = 0) ->
+  mb_ok m base zero = true ->
   let D := pad_left ch_0 prec (to_digits base mag) in
   Forall (fun c => is_digit_of base c = true) D /\ D <> [] /\
-  of_digits_from base 0 D = Some mag /\ (m = MDec -> D = to_digits 10 mag).
+  of_digits_from base 0 D = Some mag.
 Proof.
-  intros Hmb Hz D. pose proof (base_ge2 _ _ _ Hmb) as Hb2. pose proof (base_le16 _ _ _ Hmb) as Hb16.
+  intros Hmb D. pose proof (base_ge2 _ _ _ Hmb) as Hb2. pose proof (base_le16 _ _ _ Hmb) as Hb16.
   subst D. unfold pad_left. repeat split.
   - apply Forall_app. split.
     + apply Forall_forall. intros c Hc. apply repeat_spec in Hc. subst c. apply digit_zero_ok. lia.
     + apply to_digits_chars; lia.
   - intro E. apply app_eq_nil in E as [_ E]. exact (to_digits_nonempty _ _ E).
   - rewrite of_digits_from_zeros by lia. apply of_digits_to_digits; lia.
-  - intro Em. destruct (base_cases _ _ _ Hmb) as [(_ & -> & Ez)|[(E & _)|[(E & _)|(E & _)]]]; try congruence.
-    rewrite (Hz Ez). reflexivity.
+Qed.
+
+(* stripDecimalLeadingZeros removes exactly the padding of a decimal number *)
+Lemma strip_zeros_aux_digits fuel mag : strip_zeros_aux fuel (to_digits 10 mag) = to_digits 10 mag.
+Proof.
+  destruct fuel as [|f]; [reflexivity|].
+  destruct (N.eq_dec mag 0) as [->|Hne]; [rewrite to_digits_0; reflexivity|].
+  destruct (to_digits_head 10 mag) as (d & r & E & Hd0 & Hd); try lia. rewrite E.
+  assert (Hc : (digit_char d =? ch_0) = false).
+  { apply N.eqb_neq. unfold digit_char, ch_0. destruct (N.ltb_spec d 10); lia. }
+  cbn [strip_zeros_aux]. rewrite Hc. reflexivity.
+Qed.
+
+Lemma strip_zeros_aux_padded mag : forall n fuel, (n <= fuel)%nat ->
+  strip_zeros_aux fuel (repeat ch_0 n ++ to_digits 10 mag) = to_digits 10 mag.
+Proof.
+  induction n as [|n IH]; intros fuel Hf; cbn [repeat app]; [apply strip_zeros_aux_digits|].
+  destruct fuel as [|f]; [lia|].
+  destruct (repeat ch_0 n ++ to_digits 10 mag) as [|c1 r] eqn:E.
+  - exfalso. apply app_eq_nil in E as [_ E]. exact (to_digits_nonempty _ _ E).
+  - assert (Hc1 : is_dec c1 = true).
+    { destruct n as [|n']; cbn [repeat app] in E.
+      - assert (Hall : Forall (fun c => is_digit_of 10 c = true) (to_digits 10 mag)) by (apply to_digits_chars; lia).
+        rewrite E in Hall. inversion Hall; subst. apply digit_of_10_is_dec. assumption.
+      - injection E as <- _. reflexivity. }
+    assert (Hus : (c1 =? ch_us) = false).
+    { unfold is_dec in Hc1. apply andb_true_iff in Hc1 as [H1 H2]. apply N.leb_le in H1, H2.
+      apply N.eqb_neq. unfold ch_us. lia. }
+    cbn [strip_zeros_aux drop_us]. rewrite N.eqb_refl, Hus, Hc1. apply IH. lia.
+Qed.
+
+Lemma strip_zeros_padded n mag : strip_zeros (repeat ch_0 n ++ to_digits 10 mag) = to_digits 10 mag.
+Proof.
+  unfold strip_zeros. apply strip_zeros_aux_padded. rewrite app_length, repeat_length. lia.
+Qed.
+
+(* the text handed to strconv for an element written as sign, padding, digits *)
+Lemma elem_text_padded m base zero (neg : bool) prec mag :
+  mb_ok m base zero = true ->
+  elem_text m ((if neg then [ch_minus] else []) ++ pad_left ch_0 prec (to_digits base mag)) =
+  (if neg then [ch_minus] else []) ++
+  match m with MDec => to_digits 10 mag | _ => pad_left ch_0 prec (to_digits base mag) end.
+Proof.
+  intro Hmb. destruct (base_cases _ _ _ Hmb) as [(-> & ->)|[(-> & _)|[(-> & _)|(-> & _)]]]; try reflexivity.
+  unfold elem_text, pad_left. destruct neg; cbn [app].
+  - unfold strip_dec_leading_zeros. rewrite N.eqb_refl. cbn [orb]. rewrite strip_zeros_padded. reflexivity.
+  - unfold strip_dec_leading_zeros.
+    destruct (repeat ch_0 (N.to_nat prec - length (to_digits 10 mag)) ++ to_digits 10 mag) as [|c r] eqn:E.
+    + exfalso. apply app_eq_nil in E as [_ E]. exact (to_digits_nonempty _ _ E).
+    + assert (Hc : plain_char c).
+      { assert (Hall : Forall (fun c => is_digit_of 10 c = true) (c :: r)).
+        { rewrite <- E. apply Forall_app. split.
+          - apply Forall_forall. intros x Hx. apply repeat_spec in Hx. subst x. apply digit_zero_ok. lia.
+          - apply to_digits_chars; lia. }
+        inversion Hall; subst. apply (digit_not_special 10); [lia|assumption]. }
+      assert (Hs : (c =? ch_minus) = false /\ (c =? ch_plus) = false).
+      { unfold plain_char, ch_minus, ch_plus in *. split; apply N.eqb_neq; lia. }
+      destruct Hs as [-> ->]. cbn [orb]. rewrite <- E. apply strip_zeros_padded.
 Qed.
 
 Lemma plain_not_sign c : plain_char c -> (c =? ch_minus) = false /\ (c =? ch_plus) = false.
@@ -470,17 +526,31 @@ Proof.
   set (neg := is_signed k && (P <=? x)).
   set (mag := if neg then (2 ^ bits - x) mod 2 ^ 64 else x).
   set (prec := if zero then (if neg then width - 1 else width) else 0).
-  assert (Hprec : zero = false -> prec = 0) by (intro E; subst prec; rewrite E; reflexivity).
-  destruct (padded_digits m base zero prec mag Hmb Hprec) as (HD & HDne & HDval & HDdec).
+  destruct (padded_digits m base zero prec mag Hmb) as (HD & HDne & HDval).
+  pose proof (elem_text_padded m base zero neg prec mag Hmb) as Etext.
   set (D := pad_left ch_0 prec (to_digits base mag)) in *.
+  (* the digits strconv sees: padding removed in decimal mode *)
+  set (D' := match m with MDec => to_digits 10 mag | _ => D end) in *.
+  assert (HD' : Forall (fun c => is_digit_of base c = true) D' /\ D' <> [] /\
+                of_digits_from base 0 D' = Some mag /\ (m = MDec -> D' = to_digits 10 mag)).
+  { subst D'. destruct (base_cases _ _ _ Hmb) as [(-> & ->)|[(-> & _)|[(-> & _)|(-> & _)]]];
+      try (repeat split; try assumption; discriminate).
+    repeat split.
+    - apply to_digits_chars; lia.
+    - apply to_digits_nonempty.
+    - apply of_digits_to_digits; lia. }
+  destruct HD' as (HD' & HDne' & HDval' & HDdec').
+  assert (Etext' : elem_text m ((if neg then [ch_minus] else []) ++ D) = (if neg then [ch_minus] else []) ++ D') by exact Etext.
+  clear Etext. clearbody D'.
   pose proof (D_plain _ _ _ _ Hmb HD) as Hplain.
+  pose proof (D_plain _ _ _ _ Hmb HD') as Hplain'.
   split; [|apply run_ok_int_text; assumption].
-  unfold read_int_elem, is_signed in *.
+  unfold read_int_elem, is_signed in *. rewrite Etext'.
   destruct (kind_class k) eqn:Ek; [| |congruence].
   - (* unsigned *)
     cbn [andb] in neg. subst neg. cbn [app]. subst mag.
     rewrite (unsigned_token_ok m base zero D Hmb HD HDne).
-    apply (unsigned_parse m base zero bits x D); assumption.
+    apply (unsigned_parse m base zero bits x D'); assumption.
   - (* signed *)
     cbn [andb] in neg.
     assert (Hmag : mag < 2 ^ bits /\ (neg = true -> P <= x /\ mag = 2 ^ bits - x) /\ (neg = false -> x < P /\ mag = x)).
@@ -489,7 +559,7 @@ Proof.
       - repeat split; try lia; intro; try discriminate; lia. }
     destruct Hmag as (Hmag & Hn1 & Hn0).
     pose proof (unsigned_token_ok m base zero D Hmb HD HDne) as Htok.
-    pose proof (unsigned_parse m base zero bits mag D Hmb Hmag HD HDne HDval HDdec) as Hparse.
+    pose proof (unsigned_parse m base zero bits mag D' Hmb Hmag HD' HDne' HDval' HDdec') as Hparse.
     destruct neg eqn:Eneg.
     + cbn [app]. destruct (Hn1 eq_refl) as [Hle Emag].
       assert (Htok' : int_token_ok true m (ch_minus :: D) = true).
@@ -504,7 +574,11 @@ Proof.
       destruct (plain_not_sign c Hc) as [Hm Hp].
       assert (Htok' : int_token_ok true m (c :: r) = true).
       { unfold int_token_ok in *. cbn [andb] in *. rewrite Hm. exact Htok. }
-      rewrite Htok'. unfold parse_int_go. rewrite Hm, Hp. cbn [orb]. fold bits. rewrite Hparse.
+      rewrite Htok'.
+      destruct D' as [|c' r'] eqn:ED'; [congruence|].
+      assert (Hc' : plain_char c') by (inversion Hplain'; assumption).
+      destruct (plain_not_sign c' Hc') as [Hm' Hp'].
+      unfold parse_int_go. rewrite Hm', Hp'. cbn [orb]. fold bits. rewrite Hparse.
       fold P. replace (P <=? mag) with false by (symmetry; apply N.leb_gt; lia).
       f_equal; exact Emag.
 Qed.
@@ -1883,3 +1957,21 @@ Example ex_roundtrip :
   roundtrip ex_g ex_p KF64 cfg_CTEEncodingFormatDecimal ex_xs
   = Ok (KF64, [0x3ff8000000000000; 0xbfb999999999999a; 0x7ffc000000000000; 0xfff0000000000000]).
 Proof. vm_compute. reflexivity. Qed.
+
+(* ------------------------------------------------------------------ *)
+(** * Decimal elements with leading zeros (parser.go stripDecimalLeadingZeros) *)
+
+(* What a zero-filled decimal verb (%0<width>d) writes for an integer element is
+   read back as that element: the padding is not taken for a legacy octal prefix. *)
+Theorem zero_filled_decimal_elem_read k width x :
+  kind_class k <> CFloat -> x < 2 ^ kind_bits k ->
+  let t := go_int_text (is_signed k) (kind_bits k) x 10 true width in
+  read_int_elem k MDec t = Some x /\ run_ok t.
+Proof.
+  intros Hk Hx. apply (int_elem_roundtrip k MDec 10 true width x Hk Hx eq_refl (or_introl eq_refl)).
+Qed.
+
+Example ex_leading_zeros :
+  read_elems no_p (s2b "@i8[010 -0017 08 09 00 -00 0x10 0_10 00_8 0__1]")%string = Ok (KI8, [10; 239; 8; 9; 0; 0; 16; 10; 8; 1]) /\
+  go_int_text true 8 239 10 true 5 = s2b "-0017"%string.
+Proof. vm_compute. split; reflexivity. Qed.
